@@ -145,6 +145,11 @@ def explore(tier, seed):
                 chunks.append(("place", name, pos, first, n))
         chunks.append(("orders", name, tier))
         chunks.append(("thirty", name, tier))
+    for name in ("semver", "build", "legacy"):
+        for twin in (False, True):
+            for pos in ("below", "between"):
+                for first in PLACES:
+                    chunks.append(("realgit", name, twin, pos, first))
     return pool.run_chunks(run_chunk, chunks)
 
 
@@ -267,6 +272,8 @@ def run_chunk(chunk):
             perms = perms[::6]
         for order in perms:
             run_state(st, name, "below", "global", False, ("head",) * 3 + ("elsewhere",) * 3, tags, order=order)
+    elif chunk[0] == "realgit":
+        real_git(st, chunk[1], chunk[2], chunk[3], chunk[4])
     else:
         _k, name, tier = chunk
         P = PATTERNS[name]
@@ -288,7 +295,76 @@ def run_chunk(chunk):
     return st
 
 
+def real_git(st, name, twin_branch, only_pos=None, only_first=None):
+    """Seam conformance + what only real git can show: 3 tags over two branches in a real repository, every
+    placement x scope, optionally with a BRANCH named exactly like the highest tag (git then disambiguates ref names)."""
+    from .. import gitworld as gw
+
+    P = PATTERNS[name]
+    tags = [t for t in P["tags"] if classify_tag(name, t) == "match"][:3]
+    for placement in itertools.product(PLACES, repeat=len(tags)):
+        if only_first is not None and placement[0] != only_first:
+            continue
+        for pos in ("below", "between"):
+            if only_pos is not None and pos != only_pos:
+                continue
+            cfgv = P["configs"][pos]
+            for scope in SCOPES:
+                d = pool.fresh_dir("c09git")
+                os.chdir(d)
+                gw.init()
+                world.write_tree(project(name, cfgv, scope))
+                gw.commit_all("init")
+                gw.git("branch", "other")
+                for t, pl in zip(tags, placement):
+                    if pl == "head":
+                        gw.git("commit", "-q", "--allow-empty", "-m", "work for " + t)
+                        gw.git("tag", t)
+                for t, pl in zip(tags, placement):
+                    if pl == "elsewhere":
+                        gw.git("checkout", "-q", "other")
+                        gw.git("commit", "-q", "--allow-empty", "-m", "other work for " + t)
+                        gw.git("tag", t)
+                        gw.git("checkout", "-q", "main")
+                present = [t for t, pl in zip(tags, placement) if pl != "absent"]
+                if twin_branch and present:
+                    top = greatest(present)[0]
+                    gw.git("branch", top, check=False)  # a maintenance branch named like the newest tag
+                want = expected_start(name, cfgv, scope, False, placement, tags)
+                o = world.cli("show", "--no-fetch")
+                st.evaluations += 1
+                st.transitions += 1
+                got = None
+                for line in o.stdout.splitlines():
+                    if line.startswith("Current Version: "):
+                        got = line[len("Current Version: "):]
+                case = {"pattern": name, "config": cfgv, "scope": scope, "ignore_vcs_tag": False, "real_git": True, "twin_branch": twin_branch,
+                        "tags": {t: pl for t, pl in zip(tags, placement) if pl != "absent"}}
+                st.observe((case, o.exit, o.crashed, got))
+                st.state("realgit", name, pos, scope, placement, twin_branch)
+                if present:
+                    st.nontriv("realgit", name, pos, scope, placement, twin_branch)
+                if o.exit != 0 or got not in want:
+                    st.outcomes["violation"] += 1
+                    st.violation(f"C09:start-version:real-git:{name}:{scope}" + (":branch-named-like-tag" if twin_branch else ""), case,
+                                 {"shown": got, "acceptable": sorted(want), "exit": o.exit, "crashed": o.crashed, "log": o.log[-2:]})
+                else:
+                    st.validated += 1
+                    st.outcomes["real-git-start-ok"] += 1
+                if scope == "default" and pos == "below" and present:
+                    o2 = world.cli("update", "--dry", "--no-fetch", *P["bump"])
+                    st.evaluations += 1
+                    if o2.exit == 0 and o2.new_version in present:
+                        st.outcomes["violation"] += 1
+                        st.violation(f"C09:new-version-equals-existing-tag:real-git:{name}", case, {"announced": o2.new_version})
+    os.chdir("/")
+
+
 def replay(case, st):
+    if case.get("real_git"):
+        world.set_today(__import__("datetime").date(2020, 3, 20))
+        real_git(st, case["pattern"], case["twin_branch"])
+        return
     import datetime as dt
 
     world.set_today(dt.date(2020, 3, 20))
